@@ -121,6 +121,9 @@ func BuildWith(s *Shape, o BuildOpts) schema.Type {
 	case KMap:
 		return schema.NewMapSchema(BuildWith(s.Keys, o), BuildWith(s.Vals, o), s.Min, s.Max)
 	case KObject:
+		if s.Typed && s.Struct != "" {
+			return buildTypedStruct(s.Struct, s.ID, BuildProps(s, o), len(s.ID)%3 == 0)
+		}
 		return BuildObject(s, o)
 	case KOneOfStr:
 		types := map[string]schema.Object{}
@@ -144,6 +147,9 @@ func BuildWith(s *Shape, o BuildOpts) schema.Type {
 		}
 		return schema.NewNamespacedRefSchema(s.RefID, s.NS, d)
 	case KScope:
+		if s.Typed {
+			return buildTypedScopeShape(s, o)
+		}
 		return BuildScope(s, o)
 	}
 	panic("gen: unknown kind")
@@ -196,6 +202,24 @@ func BuildObject(s *Shape, o BuildOpts) *schema.ObjectSchema {
 		return schema.NewUnenforcedIDObjectSchema(s.ID, props)
 	}
 	return schema.NewObjectSchema(s.ID, props)
+}
+
+func buildTypedScopeShape(s *Shape, o BuildOpts) schema.Type {
+	var root *schema.ObjectSchema
+	var others []*schema.ObjectSchema
+	rootStruct := ""
+	for _, ob := range s.Objects {
+		b := BuildObject(ob, o)
+		if ob.ID == s.Root && root == nil {
+			root, rootStruct = b, ob.Struct
+		} else {
+			others = append(others, b)
+		}
+	}
+	if root == nil {
+		panic("gen: scope without root object")
+	}
+	return buildTypedScope(rootStruct, root, others)
 }
 
 func BuildScope(s *Shape, o BuildOpts) *schema.ScopeSchema {
